@@ -664,6 +664,76 @@ async def e2e_scp(ctx, tmp):
         await listener.wait_closed()
 
 
+async def e2e_symlinks(ctx, tmp):
+    """Sequences of mkdir/symlink requests against a real chrooted server; after every request every
+    symlink inside the root must still resolve (physically) inside the root."""
+    import asyncssh
+    rng = ctx.rng
+    nseq = 150 if ctx.tier == 'thorough' else 40
+    made = 0
+    for k in range(nseq):
+        base = os.path.join(tmp, 'sl%d' % k)
+        jail = os.path.join(base, 'jail')
+        os.makedirs(os.path.join(jail, 'a', 'b', 'c'))
+        os.makedirs(os.path.join(base, 'outside'))
+        jb = jail.encode()
+
+        def sftpf(chan, jb=jb):
+            return asyncssh.SFTPServer(chan, chroot=jb)
+        listener, conn = await sshutil.loopback(srv_kw={'sftp_factory': sftpf})
+        try:
+            sftp = await conn.start_sftp_client()
+            links = []          # client-visible paths of links created so far
+            dirs = [b'/', b'/a', b'/a/b', b'/a/b/c']
+            ops = []
+            for step in range(rng.randint(2, 5)):
+                newdir = rng.choice(dirs)
+                name = b'l%d' % step
+                newpath = posixpath.join(newdir, name)
+                parts = []
+                for _ in range(rng.randint(1, 4)):
+                    r = rng.random()
+                    if r < 0.45:
+                        parts.append(b'..')
+                    elif r < 0.65 and links:
+                        parts.append(posixpath.relpath(rng.choice(links), newdir))
+                    else:
+                        parts.append(rng.choice([b'a', b'b', b'c', b'.', b'a/b/c']))
+                target = b'/'.join(parts)
+                if rng.random() < 0.15:
+                    target = b'/' + target
+                ops.append((target, newpath))
+                try:
+                    await sftp.symlink(target, newpath)
+                    links.append(newpath)
+                    made += 1
+                except (asyncssh.SFTPError, OSError):
+                    continue
+                # oracle: every symlink in the jail resolves inside the jail
+                for d, dn, fn in os.walk(jail):
+                    for f in dn + fn:
+                        lp = os.path.join(d, f)
+                        if os.path.islink(lp):
+                            rp_ = os.path.realpath(lp)
+                            if not (rp_ == jail or rp_.startswith(jail + '/')):
+                                ctx.failing_input(
+                                    f'chrooted SFTP server created symlink {lp[len(base):]!r} resolving to {rp_[len(base):]!r} '
+                                    f'outside the root after requests {ops!r}',
+                                    {'kind': 'e2e_symlink', 'ops': [[a.decode('latin-1'), b.decode('latin-1')] for a, b in ops],
+                                     'link': lp[len(base):], 'resolves_to': rp_[len(base):]})
+                                raise StopIteration
+            ctx.note_case(('symlinks', tuple(ops)), nontrivial=len(ops) >= 2)
+        except StopIteration:
+            pass
+        finally:
+            conn.close()
+            listener.close()
+            await listener.wait_closed()
+            shutil.rmtree(base, ignore_errors=True)
+    ctx.cov['oracle']['e2e_symlinks_created'] = made
+    ctx.sample({'e2e_symlinks': {'last_sequence': repr(ops)}})
+
+
 def stage_e2e(ctx):
     install_audit()
     tmp = os.path.realpath(tempfile.mkdtemp(prefix='c13e-', dir='/var/tmp'))
@@ -671,6 +741,7 @@ def stage_e2e(ctx):
         sshutil.run(e2e_chroot(ctx, tmp))
         sshutil.run(e2e_get(ctx, tmp))
         sshutil.run(e2e_scp(ctx, tmp))
+        sshutil.run(e2e_symlinks(ctx, tmp))
     finally:
         _AUDIT['on'] = False
         shutil.rmtree(tmp, ignore_errors=True)
